@@ -170,10 +170,12 @@ func runSeq(prop string) *ShardResult {
 // crash images, with the property's own alphabets.
 func seqThenCrash(prop string) *ShardResult {
 	total := *fBudget
-	*fBudget = total / 2
+	*fBudget = total * 2 / 5
 	res := newResult()
 	res.merge(runSeq(prop), "seq_")
 	res.merge(runCrash(prop), "crash_")
+	*fBudget = total / 5
+	res.merge(runSched(prop), "sched_")
 	*fBudget = total
 	return res
 }
